@@ -182,3 +182,83 @@ build_power_array = Contract("C18._build_power_array[no decimal point]", target=
                              canaries=[("row starts not re-based", "index_array[np.cumsum(lengths)[:-1]] += lengths[1:]-offset_rest", "index_array[np.cumsum(lengths)[:-1]] += lengths[:-1]-offset_rest"),
                                        ("first row one short", "index_array[0] += lengths[0]-offset_0", "index_array[0] += lengths[0]-offset_0-1")])
 CONTRACTS.append(build_power_array)
+
+
+# --- ints_to_strings: digit placement of a whole batch -------------------------------------------------------------------------------------------
+# Modular: _n_decimal_digits (proved above) is abstracted to DIG(i) in [1, 19], _build_power_array to its proved contract, change_encoding
+# (digits -> ASCII) to +48.  For EVERY batch: row i has DIG(|x_i|) + [x_i < 0] characters; character k is '-' for k = 0 of a negative number and
+# otherwise the digit  (|x_i| // 10**(len_i - 1 - k)) % 10  - the exponent of the k-th character of ITS OWN row, whatever the other rows are.
+from pyvc.core import SRagged     # noqa: E402
+
+
+def _i2s():
+    from bionumpy.io import strops
+    return strops.ints_to_strings
+
+
+_hi = {}
+
+
+def _setup_i2s(ctx):
+    st = St()
+    st.n = z3.Int("n")
+    st.x, st.DIG = z3.Function("x", z3.IntSort(), z3.IntSort()), z3.Function("n_digits", z3.IntSort(), z3.IntSort())
+    st.args = [SArr.fresh(st.n, lambda i: st.x(I(i)))]
+    _hi["st"] = st
+    return st
+
+
+def _callee_ndigits(ip, args, kwargs, lineno):
+    st = _hi["st"]
+    mag = args[0]
+    st.mag = mag.snapshot()
+    return SArr.fresh(st.n, lambda i: st.DIG(I(i)))
+
+
+def _callee_bpa(ip, args, kwargs, lineno):
+    """contract of _build_power_array (proved above): entry k of row i is lens(i) - 1 - k; precondition lens >= 1 (obliged here)"""
+    shape = args[0]
+    c = ip.ctx
+    ln = shape.lens
+    c.oblige("%s:callee._build_power_array.requires.row.lengths>=1" % c.fname, Forall(lambda i: Implies(in_range(i, shape.n), I(ln(i)) >= 1)), "callee-pre")
+    out = SRaggedObj(None, shape.n, shape.starts, shape.lens, None, None, True, shape.C)
+    out.at = lambda i, k: conc(I(ln(i)) - 1 - I(k))
+    return out
+
+
+def _callee_change_encoding(ip, args, kwargs, lineno):
+    r = args[0]
+    old_at = r.at
+    out = SRaggedObj(None, r.n, r.starts, r.lens, "BaseEncoding", r.total, r.contiguous, getattr(r, "C", None))
+    out.at = lambda i, k: conc(I(old_at(i, k)) + 48)
+    return out
+
+
+def _ens_i2s(ctx, st, ret):
+    P10 = M.pow10()
+    neg = lambda i: st.x(i) < 0
+    mag = lambda i: Ite(st.x(i) < 0, -st.x(i), st.x(i))
+    ln = lambda i: st.DIG(i) + Ite(neg(i), 1, 0)
+
+    def digit(i, k):
+        q, _ = M._divmod_noassert(mag(i), P10(ln(i) - 1 - I(k)))
+        return M._divmod_noassert(q, 10)[1]
+    st.C = getattr(ret, "C", None)
+    return [("rows", I(ret.n) == st.n),
+            ("row.length = digits + sign", Forall(lambda i: Implies(in_range(i, st.n), I(ret.lens(i)) == ln(i)))),
+            ("minus.sign.first", Forall(lambda i: Implies(And(in_range(i, st.n), neg(i)), I(ret.at(i, 0)) == 45))),
+            ("character.k.is.the.digit.of.its.own.row", Forall(lambda i, k: Implies(And(in_range(i, st.n), in_range(k, ln(i)), Not(And(neg(i), I(k) == 0))),
+                                                                                     I(ret.at(i, k)) == 48 + digit(i, k)), nvars=2))]
+
+
+ints_to_strings = Contract("C18.ints_to_strings", target=_i2s, setup=_setup_i2s,
+                           requires=lambda ctx, st: [st.n >= 0, Forall(lambda i: Implies(in_range(i, st.n), And(st.DIG(i) >= 1, st.DIG(i) <= 19)), triggers=[st.DIG],
+                                                                       name="digit counts are in 1..19 (contract of _n_decimal_digits)")],
+                           ensures=_ens_i2s,
+                           hints=lambda ctx, st, ks: ([t for k in ks[:1] for t in (st.C(k), st.C(k + 1))] + ([st.C(ks[0]) + ks[1]] if len(ks) > 1 else [])) if getattr(st, "C", None) is not None else [],
+                           callees={"bionumpy.io.strops._n_decimal_digits": _callee_ndigits, "bionumpy.io.strops._build_power_array": _callee_bpa,
+                                    "bionumpy.encoded_array.change_encoding": _callee_change_encoding},
+                           canaries=[("sign written after the first digit", 'digits[is_negative, 0] = "-"', 'digits[is_negative, 1] = "-"'),
+                                     ("no room for the sign", "shape = RaggedShape(lengths+is_negative)", "shape = RaggedShape(lengths)"),
+                                     ("digits of the signed value", "digits = np.abs(number)[:, np.newaxis] // 10**ragged_index % 10", "digits = number[:, np.newaxis] // 10**ragged_index % 10")])
+CONTRACTS.append(ints_to_strings)
